@@ -195,9 +195,9 @@ Inductive res (A : Type) := Ok (a : A) | Error (e : perr) | Unmodelled.
 Arguments Ok {A} a. Arguments Error {A} e. Arguments Unmodelled {A}.
 
 Definition wedge : Type := str * str * dec.
-Record ginfo := { g_nodes : list str;         (* list(G.nodes()) : first-appearance order *)
-                  g_edges : list wedge;       (* one entry per distinct (u,v), first-insertion order, last weight *)
-                  g_n : nat; g_m : nat }.     (* G.graph["n"], G.graph["m"]  (G.graph["w"] is not modelled) *)
+Record ginfo := { gi_nodes : list str;         (* list(G.nodes()) : first-appearance order *)
+                  gi_edges : list wedge;       (* one entry per distinct (u,v), first-insertion order, last weight *)
+                  gi_n : nat; gi_m : nat }.     (* G.graph["n"], G.graph["m"]  (G.graph["w"] is not modelled) *)
 Record graph := { gid : option str;                       (* None: no header text line -> str(id(graph_raw)) *)
                   gcons : list (list (str * str));        (* G.graph["constraints"] *)
                   ginf : option ginfo }.                  (* None: the n == 0 early return (no n/m/w keys, no edges) *)
@@ -290,7 +290,7 @@ Definition read_graph (lines : list str) : res graph :=
                      if has_source ns es then
                        if has_sink ns es then
                          Ok {| gid := hd_error hdrs; gcons := cstr;
-                               ginf := Some {| g_nodes := ns; g_edges := es; g_n := length ns; g_m := length es |} |}
+                               ginf := Some {| gi_nodes := ns; gi_edges := es; gi_n := length ns; gi_m := length es |} |}
                        else no_st ns ENoSink
                      else no_st ns ENoSource
                    else Error EMissingConstraintEdge
